@@ -15,6 +15,7 @@ mkdir -p "$VERIF/bin" "$OUT/evidence" "$OUT/replays" "$VERIF/scratch"
 BUILDS_QUICK=(
  "L1|1|5|8"
  "L2|2|10, 5|2, 4"
+ "L2b|2|5, 10|8, 1"
  "L3|3|5, 5, 5|4, 4, 4"
 )
 BUILDS_THOROUGH=(
